@@ -97,7 +97,8 @@ func (p *parser) parseMessage() (ok bool) {
 		sessionID := int(binary.BigEndian.Uint16(headerBytes[:2]))
 		systemBytes := headerBytes[6:10]
 		dataItem, ok := p.parseMessageText()
-		if !ok {
+		if !ok || p.pos != len(p.input) {
+			// malformed item, or bytes left over after the item
 			return false
 		}
 		p.msg = ast.NewHSMSDataMessage("", stream, function, waitBit, "H<->E", dataItem, sessionID, systemBytes)
@@ -105,6 +106,10 @@ func (p *parser) parseMessage() (ok bool) {
 
 	case sTypeSelectReq, sTypeSelectRsp, sTypeDeselectReq, sTypeDeselectRsp,
 		sTypeLinktestReq, sTypeLinktestRsp, sTypeRejectReq, sTypeSeparateReq:
+		if p.msgLength != 10 {
+			// a control message is exactly a header
+			return false
+		}
 		p.msg = ast.NewHSMSControlMessage(headerBytes)
 		return true
 
